@@ -40,6 +40,14 @@ func freshPerIteration(v ssa.Value, loopBody map[*ssa.BasicBlock]bool, seen map[
 		}
 		return false, "made once outside the namespace loop at line " + fmt.Sprint(x.Parent().Prog.Fset.Position(x.Pos()).Line)
 	case *ssa.Phi:
+		if !loopBody[x.Block()] {
+			// a phi at (or above) the loop header that is fed from inside the loop carries a value across iterations
+			for _, p := range x.Block().Preds {
+				if loopBody[p] {
+					return false, "the list is declared outside the loop and keeps growing across iterations"
+				}
+			}
+		}
 		for _, e := range x.Edges {
 			if ok, why := freshPerIteration(e, loopBody, seen); !ok {
 				return false, why
@@ -563,6 +571,19 @@ func ruleShape1(c *Ctx, r *Reporter) {
 				for _, ref := range *refs {
 					if st, ok := ref.(*ssa.Store); ok && st.Addr == ssa.Value(x) {
 						fieldsOf(st.Val, acc, seen, depth+1)
+					}
+					// element / field stores (varargs arrays, literals)
+					if av, ok := ref.(ssa.Value); ok {
+						switch ref.(type) {
+						case *ssa.IndexAddr, *ssa.FieldAddr:
+							if rr := av.Referrers(); rr != nil {
+								for _, y := range *rr {
+									if st, ok := y.(*ssa.Store); ok && st.Addr == av {
+										fieldsOf(st.Val, acc, seen, depth+1)
+									}
+								}
+							}
+						}
 					}
 				}
 			}
